@@ -20,6 +20,12 @@ SPEC = {
          "cases": {"quick": 1200000, "thorough": 48000000}, "budget": 20},
         {"name": "pfc", "harness": "c15_idl_pfc", "srcs": _SRCS, "flavour": "asan", "mode": "pfc",
          "cases": {"quick": 640000, "thorough": 24000000}, "budget": 20},
+        # long streams: continuity index wraps, several faults far apart, reset() mid-stream, callbacks returning
+        # FALSE, frames with several packets of the stream, two contexts on one multiplex
+        {"name": "idl_long", "harness": "c15_idl_pfc", "srcs": _SRCS, "flavour": "asan", "mode": "idl-long",
+         "cases": {"quick": 16000, "thorough": 640000}, "budget": 20},
+        {"name": "pfc_long", "harness": "c15_idl_pfc", "srcs": _SRCS, "flavour": "asan", "mode": "pfc-long",
+         "cases": {"quick": 24000, "thorough": 960000}, "budget": 20},
     ],
     "min_distinct": 300,
     "min_counters": {
@@ -29,5 +35,13 @@ SPEC = {
         "pfc_blocks_sent": 1000, "pfc_blocks_delivered": 1000, "pfc_block_ends_at_packet_end": 10,
         "pfc_sh_split": 10, "pfc_block_spans_pages": 10, "pfc_fault_drop_packet": 10, "pfc_fault_drop_header": 10,
         "pfc_fault_hamming": 10,
+        # session 6 extension
+        "idl_long_streams": 1000, "idl_long_ci_wraps": 1000, "idl_long_gap_16": 100, "idl_long_gap_multiple_of_256": 100,
+        "idl_long_gap_flagged": 1000, "idl_long_gap_not_observable": 100, "idl_long_loss_after_one_survivor": 100,
+        "idl_long_resets": 100, "idl_long_first_delivery_after_reset": 100, "idl_long_callback_false": 100,
+        "idl_long_two_contexts": 100, "idl_long_frames_with_several_service_packets": 1000,
+        "pfc_long_streams": 1000, "pfc_long_blocks_delivered_after_a_fault": 1000, "pfc_long_resets": 100,
+        "pfc_long_reset_with_block_in_progress": 100, "pfc_long_callback_false": 100, "pfc_long_two_contexts": 100,
+        "pfc_long_frames_with_several_rows": 1000, "pfc_long_block_spans_pages": 100,
     },
 }
